@@ -357,8 +357,13 @@ class Forest:
             return iter(n)
 
         def visit(n, _, __):
-            if isinstance(n, Parent) and len(n.possibilities) > 1:
-                disamfun(n)
+            if isinstance(n, Parent):
+                # Possibilities of this node or of the nodes below might be
+                # removed. Drop the cached counts.
+                n._solutions = None
+                n._ambiguities = None
+                if len(n.possibilities) > 1:
+                    disamfun(n)
 
         self.result._solutions = None
         return visitor(self.result, tree_iterator, visit)
